@@ -164,11 +164,36 @@ func (o *Observed) canon(n *Node) string {
 var ctxProbe = []string{"k1", "k2"}
 
 // NewCase generates and runs one case.
+// acceptable: does the implementation report no issues for one of a few generated inputs?
+func (g *Gen) acceptable(n *Node, validate bool) bool {
+	t := TypeOf(n)
+	probe := Build(&Recorder{}, n, validate)
+	for try := 0; try < 6; try++ {
+		var o Observed
+		if validate {
+			o = Exec(probe, true, nil, copyDest(t, g.DestValue(n, t, false)), &Recorder{})
+		} else {
+			in := g.Input(n)
+			o = Exec(probe, false, in.Go(nil), reflect.New(t), &Recorder{})
+		}
+		if o.Panic == "" && o.Nil {
+			return true
+		}
+	}
+	return false
+}
+
 func NewCase(g *Gen, id int, forceValidate *bool) *Case {
 	n := g.Schema()
 	validate := g.R.P(40)
 	if forceValidate != nil {
 		validate = *forceValidate
+	}
+	if g.P.NilBias {
+		// prefer schemas some input of which the implementation accepts
+		for try := 0; try < 8 && !g.acceptable(n, validate); try++ {
+			n = g.Schema()
+		}
 	}
 	c := &Case{ID: id, Validate: validate, Schema: n, Collide: hasIssuePath(n), Shape: Shape(n)}
 	rec := &Recorder{CtxKeys: ctxProbe}
@@ -186,8 +211,27 @@ func NewCase(g *Gen, id int, forceValidate *bool) *Case {
 	var dest0 reflect.Value
 	if validate {
 		dest0 = g.DestValue(n, t, false)
+		if g.P.NilBias {
+			// prefer a value the implementation accepts: the "no issues" premise of C01 must be met often
+			probe := Build(&Recorder{}, n, true)
+			for try := 0; try < 10; try++ {
+				if o := Exec(probe, true, nil, copyDest(t, dest0), &Recorder{}); o.Panic != "" || o.Nil {
+					break
+				}
+				dest0 = g.DestValue(n, t, false)
+			}
+		}
 	} else {
 		in := g.Input(n)
+		if g.P.NilBias {
+			probe := Build(&Recorder{}, n, false)
+			for try := 0; try < 10; try++ {
+				if o := Exec(probe, false, in.Go(nil), reflect.New(t), &Recorder{}); o.Panic != "" || o.Nil {
+					break
+				}
+				in = g.Input(n)
+			}
+		}
 		c.In = &in
 		if g.R.P(g.P.PPrefill) {
 			dest0 = g.DestValue(n, t, false)
